@@ -171,9 +171,8 @@ impl GarbageCollector {
 /// window (between reading a chunk record and writing the new count back). The installed
 /// callback receives the chunk key; `None` (the default) does nothing.
 #[cfg(feature = "neumann_verif")]
-pub static VERIF_REFCOUNT_WINDOW: std::sync::RwLock<
-    Option<Arc<dyn Fn(&str) + Send + Sync>>,
-> = std::sync::RwLock::new(None);
+pub static VERIF_REFCOUNT_WINDOW: std::sync::RwLock<Option<Arc<dyn Fn(&str) + Send + Sync>>> =
+    std::sync::RwLock::new(None);
 
 #[cfg(feature = "neumann_verif")]
 fn verif_refcount_window(chunk_key: &str) {
